@@ -21,6 +21,21 @@ pub enum Expr {
     Error { message: String },
 }
 
+/// Writes the contents of a `'...'` literal the way the lexer reads
+/// them: `'`, newline and tab go behind a backslash.
+pub(crate) fn escape_quote(string: &str) -> String {
+    let mut out = String::with_capacity(string.len());
+    for ch in string.chars() {
+        match ch {
+            '\'' => out.push_str("\\'"),
+            '\n' => out.push_str("\\n"),
+            '\t' => out.push_str("\\t"),
+            ch => out.push(ch),
+        }
+    }
+    out
+}
+
 impl Expr {
     pub fn new_const(value: Numeric) -> Expr {
         Expr::Const { value }
@@ -180,7 +195,7 @@ impl fmt::Display for Expr {
         fn recurse(expr: &Expr, fmt: &mut fmt::Formatter<'_>, prec: Precedence) -> fmt::Result {
             match *expr {
                 Expr::Unit { ref name } => write!(fmt, "{}", name),
-                Expr::Quote { ref string } => write!(fmt, "'{}'", string),
+                Expr::Quote { ref string } => write!(fmt, "'{}'", escape_quote(string)),
                 Expr::Const { ref value } => {
                     let (_exact, val) = value.to_string(10, Digits::Default);
                     write!(fmt, "{}", val)
